@@ -101,13 +101,19 @@ def inRecovery (s : St) (sentTime : Nat) : Bool :=
   | some r => sentTime ≤ r
   | none => false
 
-/-- `NewReno::on_packet_acked` -/
-def onPacketAcked (s : St) (p : Pkt) : St :=
-  if !p.cc then s else
-  let s := if p.st == PSt.I then { s with bytes := s.bytes - p.size } else s
+/-- `NewReno::on_packet_acked`, first half: leave flight -/
+def ackBytes (s : St) (p : Pkt) : St :=
+  if p.st == PSt.I then { s with bytes := s.bytes - p.size } else s
+
+/-- `NewReno::on_packet_acked`, second half: window growth -/
+def ackGrow (s : St) (p : Pkt) : St :=
   if inRecovery s p.ts then s else
   if s.cwnd < s.ssth then { s with cwnd := s.cwnd + p.size }
   else { s with cwnd := s.cwnd + s.mds * p.size / s.cwnd }
+
+/-- `NewReno::on_packet_acked` -/
+def onPacketAcked (s : St) (p : Pkt) : St :=
+  if !p.cc then s else ackGrow (ackBytes s p) p
 
 /-- `NewReno::on_congestion_event` -/
 def onCongestionEvent (s : St) (sentTime : Nat) : Except String St :=
@@ -124,17 +130,20 @@ def lostFold : List Pkt → Nat → Option Nat → Nat × Option Nat
       lostFold ps (bytes - p.size) (match t with | some x => some (max x p.ts) | none => some p.ts)
     else lostFold ps bytes t
 
+/-- the `persistent_lost` branch of `NewReno::on_packets_lost` -/
+def persistentCollapse (s : St) : St :=
+  { s with ssth := s.cwnd / 2 ^ persistentShift,
+           cwnd := max (s.cwnd / 2 ^ persistentShift) (minWindowDatagramsPersistent * s.mds), rs := none }
+
 /-- `NewReno::on_packets_lost` -/
-def onPacketsLost (s : St) (lost : List Pkt) (persistent : Bool) : Except String St := do
-  let (bytes, t) := lostFold lost s.bytes none
-  let s := { s with bytes := bytes }
-  let s ← match t with
-    | some time => onCongestionEvent s time
-    | none => pure s
-  if persistent then
-    let ssth := s.cwnd / 2 ^ persistentShift
-    pure { s with ssth := ssth, cwnd := max ssth (minWindowDatagramsPersistent * s.mds), rs := none }
-  else pure s
+def onPacketsLost (s : St) (lost : List Pkt) (persistent : Bool) : Except String St :=
+  let r := lostFold lost s.bytes none
+  let s1 := { s with bytes := r.1 }
+  match (match r.2 with
+         | some time => onCongestionEvent s1 time
+         | none => .ok s1) with
+  | .error e => .error e
+  | .ok s2 => .ok (if persistent then persistentCollapse s2 else s2)
 
 /-- `NewReno::remove_from_bytes_in_flight` (unchecked `-=`) -/
 def removeFromBytes : List Pkt → Nat → Except String Nat
@@ -208,15 +217,14 @@ def persistentFold : List Nat → Option Nat → Nat → Bool
     else persistentFold rest (some idx) lostCount
 
 /-- `PacketSpace::detect_lost_packets`: returns the lost packet numbers -/
-def detectLost (s : St) (e : Nat) (ld : Nat) : Except String (St × List Nat) := do
+def detectLost (s : St) (e : Nat) (ld : Nat) : Except String (St × List Nat) :=
   let sp := getSp s e
-  let lostSentTime := s.now - ld - sp.mad
-  let largestIndex := bsearch sp.sent (sp.la.getD 0)
-  let (sent', lost, lt') := lossWalk lostSentTime ld largestIndex sp.sent 0 none
-  let persistent := persistentFold (lost.map (·.1)) none 0
-  let s := setSp s e { sp with sent := sent', lt := lt' }
-  let s ← if lost.isEmpty then pure s else onPacketsLost s (lost.map (·.2)) persistent
-  pure (s, lost.map (·.2.pn))
+  let w := lossWalk (s.now - ld - sp.mad) ld (bsearch sp.sent (sp.la.getD 0)) sp.sent 0 none
+  let s1 := setSp s e { sp with sent := w.1, lt := w.2.2 }
+  if w.2.1.isEmpty then .ok (s1, []) else
+  match onPacketsLost s1 (w.2.1.map (·.2)) (persistentFold (w.2.1.map (·.1)) none 0) with
+  | .error err => .error err
+  | .ok s2 => .ok (s2, w.2.1.map (·.2.pn))
 
 /-! ## CongestionController -/
 
@@ -284,55 +292,62 @@ def addNeed (s : St) (e : Nat) : St :=
   let sp := getSp s e
   setSp s e { sp with need := sp.need + 1 }
 
+def bumpPto (s : St) : St := { s with pto := s.pto + 1 }
+
+def lostOut (e : Nat) (lost : List Nat) : List (Nat × List Nat) :=
+  if lost.isEmpty then [] else [(e, lost)]
+
+/-- the PTO branch of `on_loss_detection_timeout` before `pto_count += 1` -/
+def armProbe (s : St) (i : Inp) : Except String St :=
+  if noElicAll s then .ok (if s.hsKey then addNeed s 1 else addNeed s 0)
+  else (ptoTimeAndEpoch s i.srtt0 i.rttvar0).bind fun r =>
+    match r with
+    | some (_, e) => .ok (addNeed s e)
+    | none => .ok s
+
 /-- `on_loss_detection_timeout`; lost = `(epoch, pns)` handed to `may_loss` -/
-def onTimeout (s : St) (i : Inp) : Except String (St × List (Nat × List Nat)) := do
+def onTimeout (s : St) (i : Inp) : Except String (St × List (Nat × List Nat)) :=
   match lossTimeAndEpoch s with
   | some (_, e) =>
-    let (s, lost) ← detectLost s e i.ld0
-    let s ← setTimer s i.srtt1 i.rttvar1
-    pure (s, if lost.isEmpty then [] else [(e, lost)])
+    (detectLost s e i.ld0).bind fun r =>
+    (setTimer r.1 i.srtt1 i.rttvar1).bind fun s2 =>
+    .ok (s2, lostOut e r.2)
   | none =>
-    let s ←
-      if noElicAll s then
-        pure (if s.hsKey then addNeed s 1 else addNeed s 0)
-      else do
-        let r ← ptoTimeAndEpoch s i.srtt0 i.rttvar0
-        match r with
-        | some (_, e) => pure (addNeed s e)
-        | none => pure s
-    let s := { s with pto := s.pto + 1 }
-    let s ← setTimer s i.srtt1 i.rttvar1
-    pure (s, [])
+    (armProbe s i).bind fun s1 =>
+    (setTimer (bumpPto s1) i.srtt1 i.rttvar1).bind fun s2 =>
+    .ok (s2, [])
+
+/-- state after `PacketSpace::discard` and the resets of `discard_epoch`, before `set_loss_detection_timer` -/
+def discardReset (s : St) (e : Nat) (bytes : Nat) : St :=
+  let sp := getSp s e
+  let s1 := setSp { s with bytes := bytes } e { sp with sent := [], tl := none, lt := none }
+  { s1 with timer := none, pto := 0 }
 
 /-- `PacketSpace::discard` + `CongestionController::discard_epoch` -/
-def discardEpoch (s : St) (e : Nat) (srtt rttvar : Nat) : Except String St := do
-  if e ≥ 2 then throw "assert:epoch!=Data"
+def discardEpoch (s : St) (e : Nat) (srtt rttvar : Nat) : Except String St :=
+  if e ≥ 2 then .error "assert:epoch!=Data" else
+  (removeFromBytes ((getSp s e).sent.filter fun p => p.st == PSt.I) s.bytes).bind fun bytes =>
+  setTimer (discardReset s e bytes) srtt rttvar
+
+/-- the `if in_flight { … }` block of `on_packet_sent` before `set_loss_detection_timer` -/
+def sentInflight (s : St) (ld : Nat) (e : Nat) (elic : Bool) (size : Nat) : St :=
   let sp := getSp s e
-  let bytes ← removeFromBytes (sp.sent.filter fun p => p.st == PSt.I) s.bytes
-  let s := { s with bytes := bytes }
-  let s := setSp s e { sp with sent := [], tl := none, lt := none }
-  let s := { s with timer := none, pto := 0 }
-  setTimer s srtt rttvar
+  let sp := if elic then { sp with tl := some s.now, need := sp.need - 1 } else sp
+  let sp := match sp.lt with
+    | some _ => sp
+    | none => { sp with lt := some (s.now + ld) }
+  setSp { s with bytes := s.bytes + size } e sp
+
+def pushPkt (s : St) (e : Nat) (pkt : Pkt) : St :=
+  let sp := getSp s e
+  setSp s e { sp with sent := sp.sent ++ [pkt] }
 
 /-- `ArcCC::on_pkt_sent` = `on_packet_sent` + the client's `discard_epoch(Initial)` on every Handshake packet -/
-def onPktSent (s : St) (i : Inp) (e pn : Nat) (elic infl : Bool) (size : Nat) : Except String St := do
+def onPktSent (s : St) (i : Inp) (e pn : Nat) (elic infl : Bool) (size : Nat) : Except String St :=
   let pkt : Pkt := { pn := pn, ts := s.now, elic := elic, cc := infl, size := size, st := PSt.I }
-  let s ←
-    if infl then do
-      let sp := getSp s e
-      let sp := if elic then { sp with tl := some s.now, need := sp.need - 1 } else sp
-      let s := setSp s e sp
-      let s := { s with bytes := s.bytes + size }
-      let sp := getSp s e
-      let sp := match sp.lt with
-        | some _ => sp
-        | none => { sp with lt := some (s.now + i.ld0) }
-      let s := setSp s e sp
-      setTimer s i.srtt0 i.rttvar0
-    else pure s
-  let sp := getSp s e
-  let s := setSp s e { sp with sent := sp.sent ++ [pkt] }
-  if e == 1 && !s.server then discardEpoch s 0 i.srtt1 i.rttvar1 else pure s
+  (if infl then setTimer (sentInflight s i.ld0 e elic size) i.srtt0 i.rttvar0 else .ok s).bind fun s1 =>
+  let s2 := pushPkt s1 e pkt
+  if e == 1 && !s2.server then discardEpoch s2 0 i.srtt1 i.rttvar1 else .ok s2
 
 /-- an ACK frame as the harness sends it: largest, descending inclusive ranges `(lo, hi)`, optional ECN-CE count -/
 structure Ack where
@@ -343,52 +358,63 @@ structure Ack where
 def inRanges (rs : List (Nat × Nat)) (pn : Nat) : Bool :=
   rs.any fun r => r.1 ≤ pn && pn ≤ r.2
 
+/-- `update_largest_acked_packet` -/
+def updLargest (s : St) (e : Nat) (largest : Nat) : St :=
+  let sp := getSp s e
+  setSp s e { sp with la := match sp.la with | some n => some (max n largest) | none => some largest }
+
+/-- the server's `discard_epoch(Initial)` after a Handshake ACK (`ArcCC::on_ack_rcvd`) -/
+def ackPost (i : Inp) (e : Nat) (s : St) (lost : List (Nat × List Nat)) : Except String (St × List (Nat × List Nat)) :=
+  if e == 1 && s.server then (discardEpoch s 0 i.srtt1 i.rttvar1).bind fun s' => .ok (s', lost)
+  else .ok (s, lost)
+
+/-- `process_ecn` -/
+def processEcn (s : St) (e : Nat) (ce : Option Nat) (lts : Nat) : Except String St :=
+  match ce with
+  | some ce =>
+    let sp := getSp s e
+    if ce > sp.ce then onCongestionEvent (setSp s e { sp with ce := ce }) lts else .ok s
+  | none => .ok s
+
+def resetPto (s : St) : St := if peerCompleted s then { s with pto := 0 } else s
+
+/-- `PacketSpace::on_ack_rcvd`: the walk, then the front trim -/
+def spaceOnAck (s : St) (e : Nat) (a : Ack) : St × AckAcc :=
+  let w := ackWalk (inRanges a.ranges) (getSp s e).sent s {}
+  let sp := getSp w.2.1 e
+  (setSp w.2.1 e { sp with sent := trimFront w.1 }, w.2.2)
+
 /-- `ArcCC::on_ack_rcvd` = `CongestionController::on_ack_rcvd` + the server's `discard_epoch(Initial)` on a Handshake ACK -/
-def onAckRcvd (s : St) (i : Inp) (e : Nat) (a : Ack) : Except String (St × List (Nat × List Nat)) := do
-  let sp := getSp s e
-  let sp := { sp with la := match sp.la with | some n => some (max n a.largest) | none => some a.largest }
-  let s := setSp s e sp
-  let post (s : St) (lost : List (Nat × List Nat)) : Except String (St × List (Nat × List Nat)) := do
-    if e == 1 && s.server then
-      let s ← discardEpoch s 0 i.srtt1 i.rttvar1
-      pure (s, lost)
-    else pure (s, lost)
-  if sp.sent.isEmpty then post s [] else
-  let (sent', s, acc) := ackWalk (inRanges a.ranges) sp.sent s {}
-  let sp := getSp s e
-  let s := setSp s e { sp with sent := trimFront sent' }
-  match acc.largest with
-  | none => post s []
+def onAckRcvd (s : St) (i : Inp) (e : Nat) (a : Ack) : Except String (St × List (Nat × List Nat)) :=
+  let s0 := updLargest s e a.largest
+  if (getSp s0 e).sent.isEmpty then ackPost i e s0 [] else
+  let r := spaceOnAck s0 e a
+  match r.2.largest with
+  | none => ackPost i e r.1 []
   | some (lpn, lts) =>
-    let rttUpdated := lpn == a.largest && acc.incl
-    let s ← match a.ce with
-      | some ce =>
-        let sp := getSp s e
-        if ce > sp.ce then onCongestionEvent (setSp s e { sp with ce := ce }) lts else pure s
-      | none => pure s
-    let (s, lost) ← detectLost s e (if rttUpdated then i.ld1 else i.ld0)
-    let s := if peerCompleted s then { s with pto := 0 } else s
-    let s ← setTimer s i.srtt1 i.rttvar1
-    post s (if lost.isEmpty then [] else [(e, lost)])
+    (processEcn r.1 e a.ce lts).bind fun s1 =>
+    (detectLost s1 e (if lpn == a.largest && r.2.incl then i.ld1 else i.ld0)).bind fun d =>
+    (setTimer (resetPto d.1) i.srtt1 i.rttvar1).bind fun s2 =>
+    ackPost i e s2 (lostOut e d.2)
+
+def tooMany (s : St) : Option Nat := if s.pto > maxPtoCount then some s.pto else none
 
 /-- `ArcCC::do_tick` (timer part): `some n` = `Err(TooManyPtos(n))` -/
 def doTick (s : St) (i : Inp) : Except String (St × List (Nat × List Nat) × Option Nat) :=
   match s.timer with
   | some t =>
-    if t ≤ s.now then do
-      let (s', lost) ← onTimeout s i
-      pure (s', lost, if s'.pto > maxPtoCount then some s'.pto else none)
-    else pure (s, [], none)
-  | none => pure (s, [], none)
+    if t ≤ s.now then (onTimeout s i).bind fun r => .ok (r.1, r.2, tooMany r.1)
+    else .ok (s, [], none)
+  | none => .ok (s, [], none)
 
 /-- `ArcCC::on_pkt_rcvd` (ack-eliciting) → `on_datagram_rcvd` -/
-def onDatagramRcvd (s : St) (i : Inp) : Except String (St × List (Nat × List Nat)) := do
+def onDatagramRcvd (s : St) (i : Inp) : Except String (St × List (Nat × List Nat)) :=
   if s.aaLimit then
-    let s ← setTimer s i.srtt0 i.rttvar0
-    match s.timer with
-    | some t => if t < s.now then onTimeout s i else pure (s, [])
-    | none => pure (s, [])
-  else pure (s, [])
+    (setTimer s i.srtt0 i.rttvar0).bind fun s1 =>
+    match s1.timer with
+    | some t => if t < s1.now then onTimeout s1 i else .ok (s1, [])
+    | none => .ok (s1, [])
+  else .ok (s, [])
 
 /-- `ArcCC::send_quota`: the pacer's token count (a float-derived input) is the whole answer;
 `cwnd` enters only through the pacer's capacity and refill rate, `bytes_in_flight` not at all. -/
@@ -409,27 +435,19 @@ structure Out where
   lost : List (Nat × List Nat) := []
   tooMany : Option Nat := none
 
+def advance (s : St) (dt : Nat) : St := { s with now := s.now + dt }
+
 def step (s : St) (i : Inp) : Op → Except String (St × Out)
-  | .sent e pn elic infl size => do
-    let s ← onPktSent s i e pn elic infl size
-    pure (s, {})
-  | .ack e a => do
-    let (s, lost) ← onAckRcvd s i e a
-    pure (s, { lost := lost })
-  | .tick dt => do
-    let (s, lost, tm) ← doTick { s with now := s.now + dt } i
-    pure (s, { lost := lost, tooMany := tm })
-  | .rcvd => do
-    let (s, lost) ← onDatagramRcvd s i
-    pure (s, { lost := lost })
-  | .discard e => do
-    let s ← discardEpoch s e i.srtt1 i.rttvar1
-    pure (s, {})
-  | .hskey => pure ({ s with hsKey := true }, {})
-  | .hsack => pure ({ s with hsAck := true }, {})
-  | .confirmed => pure ({ s with confirmed := true }, {})
-  | .grant => pure ({ s with aaLimit := false }, {})
-  | .limit => pure ({ s with aaLimit := true }, {})
+  | .sent e pn elic infl size => (onPktSent s i e pn elic infl size).bind fun s' => .ok (s', {})
+  | .ack e a => (onAckRcvd s i e a).bind fun r => .ok (r.1, { lost := r.2 })
+  | .tick dt => (doTick (advance s dt) i).bind fun r => .ok (r.1, { lost := r.2.1, tooMany := r.2.2 })
+  | .rcvd => (onDatagramRcvd s i).bind fun r => .ok (r.1, { lost := r.2 })
+  | .discard e => (discardEpoch s e i.srtt1 i.rttvar1).bind fun s' => .ok (s', {})
+  | .hskey => .ok ({ s with hsKey := true }, {})
+  | .hsack => .ok ({ s with hsAck := true }, {})
+  | .confirmed => .ok ({ s with confirmed := true }, {})
+  | .grant => .ok ({ s with aaLimit := false }, {})
+  | .limit => .ok ({ s with aaLimit := true }, {})
 
 /-- bytes of the packets still outstanding in a space (`Inflight ∧ count_for_cc`) -/
 def outstanding : List Pkt → Nat
